@@ -61,20 +61,24 @@ PROPS["C08"] = dict(
                "deadlocked, for every N and schedule; a caller is released only by its own, unique "
                "token; the dependency sort terminates with recursion depth <= |nodes|+1 on every "
                "graph (cyclic look-ups included) and lists each reachable node once; the printed "
-               "DepsGraph::visit marks before recursing.  Partial: the bounded-work measure of the "
-               "mailbox and the bridge from the relational protocol model to the executable one are "
-               "not proved; OS scheduling, condvar and channel behaviour are modelled, not verified.",
+               "DepsGraph::visit marks before recursing; every step of N callers and the reloader strictly "
+               "decreases a measure, so every execution has at most N*(16+4(N+1))+1 steps (no fairness "
+               "assumption) and can only end with every caller returned; both reloader channels are "
+               "unbounded (senders never block).  Partial: the bridge from the relational protocol model "
+               "to the executable one is not proved; OS scheduling, condvar and channel behaviour are "
+               "modelled, not verified.",
     level_note="Trusted: Coq kernel+VM, rs2v printer, Rust/Script.v action classification, mutual exclusion "
                "of Mutex, Condvar wakes every waiter on notify_all and has no lost wake-ups, FIFO of "
                "crossbeam channels; callers hold no AssetReadGuard (documented precondition of hot_reload).",
     gen=["HotReloading", "Deps", "Private"],
     model_files=["Rust/Ast.v", "Rust/Syntax.v", "Rust/Script.v", "Ref/Answers.v"],
     model_targets=["Ref/Answers.vo", "Rust/Script.vo"],
-    proof_files=["Proofs/AnsInv.v", "Proofs/AnsR.v", "Proofs/AnsC.v", "Proofs/Dfs.v", "Witness/OldD1.v",
+    proof_files=["Proofs/AnsInv.v", "Proofs/AnsR.v", "Proofs/AnsC.v", "Proofs/AnsWork.v", "Proofs/Dfs.v", "Witness/OldD1.v",
                  "Tie/Answers.v", "Tie/Graph.v", "Props/C08.v"],
     proof_targets=["Props/C08.vo", "Witness/OldD1.vo"],
     props_module="Props.C08",
-    theorems=["C08_code_has_the_protocol_shapes", "C08_code_senders_never_block", "C08_no_deadlock", "C08_released_by_own_token",
+    theorems=["C08_code_has_the_protocol_shapes", "C08_code_senders_never_block", "C08_no_deadlock", "C08_every_step_decreases_the_measure",
+              "C08_bounded_work", "C08_every_call_returns", "C08_released_by_own_token",
               "C08_sort_terminates", "C08_sort_exact_and_duplicate_free",
               "C08_code_marks_before_recursing", "C08_old_visit_diverges"],
     engines=[("answers", ["--parts", "shapes,flood,conc"])],
@@ -172,7 +176,8 @@ PROPS["C16"] = dict(
     theorems=["C16_code_as_modelled", "C16_other_constructors_funnel", "C16_compare_as_slices",
               "C16_string_validates_then_builds", "C16_deref_is_source", "C16_no_memory_errors",
               "C16_count_is_owners", "C16_blocks_live_while_owned", "C16_released_exactly_once",
-              "C16_valid_iff_encoding", "C16_decode_encode", "C16_encode_injective", "C16_nonvacuous"],
+              "C16_valid_iff_encoding", "C16_valid_up_to_is_the_longest_valid_prefix",
+              "C16_valid_iff_up_to_everything", "C16_decode_encode", "C16_encode_injective", "C16_nonvacuous"],
     engines=[("bytesdiff", [])],
     rule="bytesdiff: 250 (quick) / 1500 (thorough) scripts over 10 constructor paths (slice, From<&[u8]>, "
          "Cow borrowed/owned, Vec with excess / zero / unused capacity, Box, exact and growing iterators), "
